@@ -284,8 +284,9 @@ def g_ent_chains(maxd=14, flags=""):
 
 def g_ent_toplevel(n, flags=""):
     decls = [("e", "ab"), ("g", "&e;&e;")]
-    return [Case(ent_doc(decls, "<r>" + "&g;" * n + "</r>"), flags, True, meta={"gen": "toplevel-text", "n": n, "expect": "ok", "expect_len": 4 * n}),
-            Case(ent_doc(decls, "<r a='" + "&g;" * n + "'/>"), flags, True, meta={"gen": "toplevel-attr", "n": n, "expect": "ok", "expect_len": 4 * n})]
+    big = n > 3000
+    return [Case(ent_doc(decls, "<r>" + "&g;" * n + "</r>"), flags, True, meta={"gen": "toplevel-text", "n": n, "expect": "ok", "expect_len": 4 * n, "impl_only": big}),
+            Case(ent_doc(decls, "<r a='" + "&g;" * n + "'/>"), flags, True, meta={"gen": "toplevel-attr", "n": n, "expect": "ok", "expect_len": 4 * n, "impl_only": big})]
 
 
 def g_ent_empty(flags=""):
